@@ -1,9 +1,9 @@
 (* C12 -- stereo signs are permutation-consistent.  Statements only; proofs in Proofs.StereoProofs.
    The two translation tables are regenerated from chython/algorithms/stereo.py on every run. *)
 From Coq Require Import ZArith List Bool.
-From Model Require Import PyBase Stereo.
+From Model Require Import PyBase Graph Stereo StereoRegistry.
 From Gen Require Import StereoTables.
-From Proofs Require Import StereoProofs.
+From Proofs Require Import StereoProofs StereoRegistryProofs.
 Import ListNotations.
 Open Scope Z_scope.
 
@@ -139,3 +139,142 @@ Print Assumptions C12_cis_trans_sign_reverse.
 Theorem C12_allene_sign_mark : forall mark u v w, allene_sign (- mark) u v w = - allene_sign mark u v w.
 Proof. exact allene_sign_mark. Qed.
 Print Assumptions C12_allene_sign_mark.
+
+(* ====================================================================================================================== *)
+(* EXTENSION 1: the stereo registries of chython/algorithms/stereo.py (Model.StereoRegistry), for ALL molecules.
+   fs / fd stand for the element tables is_forming_single_bonds / is_forming_double_bonds (any table). *)
+
+(* every registry (tetrahedrons, cumulenes, stereogenic_tetrahedrons / cumulenes / allenes / cis_trans, _stereo_allenes_terminals /
+   centers, _stereo_cis_trans_centers / terminals / counterpart) of the renumbered molecule is the renumbered registry, with the
+   same dict insertion orders, for every injective renumbering (Graph.remap) *)
+Theorem C12_registries_equivariant : forall (s : Z -> Z), (forall x y, s x = s y -> x = y) ->
+  forall (fs fd : Z -> bool) (g : mol),
+  registries_of fs fd (rn_mol s g) = match registries_of fs fd g with Ok r => Ok (rn_reg s r) | Err e => Err e end.
+Proof. exact registries_rn. Qed.
+Print Assumptions C12_registries_equivariant.
+
+(* a tetrahedron is an uncharged non-radical carbon with at most four neighbours, all single-bonded *)
+Theorem C12_tetrahedrons_spec : forall g n, In n (tetrahedrons g) ->
+  exists a, In (n, a) (m_atoms g) /\ a_num a = 6 /\ a_chg a = 0 /\ a_rad a = false /\
+            (forall m b, In (m, b) (nbrs g n) -> b_ord b = 1) /\ zlen (nbr_ids g n) <= 4.
+Proof. exact tetrahedrons_spec. Qed.
+Print Assumptions C12_tetrahedrons_spec.
+
+(* stereogenic_tetrahedrons[n] exists iff n is a tetrahedron without metal neighbour with 3 or 4 non-hydrogen neighbours, and it
+   is exactly the list of the non-hydrogen neighbours in _bonds[n] order *)
+Theorem C12_sg_tetrahedron_env : forall (fs : Z -> bool) g n env, In (n, env) (sg_tetrahedrons fs g) <->
+  In n (tetrahedrons g) /\ existsb (fun x => negb (fs (anum g x))) (nbr_ids g n) = false /\
+  env = th_env g n /\ (zlen env = 3 \/ zlen env = 4).
+Proof. exact sg_th_spec. Qed.
+Print Assumptions C12_sg_tetrahedron_env.
+
+(* the neighbours are the environment plus the explicit hydrogens; with 4 listed neighbours there is no hydrogen neighbour,
+   with 3 listed neighbours every other neighbour is an explicit hydrogen and there is at most one *)
+Theorem C12_sg_tetrahedron_hydrogens : forall (fs : Z -> bool) g n env, In (n, env) (sg_tetrahedrons fs g) ->
+  Permutation.Permutation (nbr_ids g n) (env ++ filter (is_h g) (nbr_ids g n)) /\
+  (zlen env = 4 -> env = nbr_ids g n /\ filter (is_h g) (nbr_ids g n) = []) /\
+  (zlen env = 3 -> (List.length (filter (is_h g) (nbr_ids g n)) <= 1)%nat /\
+                   forall x, In x (nbr_ids g n) -> In x env \/ is_h g x = true).
+Proof.
+  exact (fun fs g n env H =>
+           conj (eq_ind_r (fun e => Permutation.Permutation (nbr_ids g n) (e ++ filter (is_h g) (nbr_ids g n)))
+                          (th_env_neighbours g n) (proj1 (proj2 (proj2 (proj1 (sg_th_spec fs g n env) H)))))
+                (sg_th_hydrogens fs g n env H)).
+Qed.
+Print Assumptions C12_sg_tetrahedron_hydrogens.
+
+(* stereogenic_cumulenes[path] = (n0, n1, n2, n3): n0 / n1 = first substituent of the first / last path atom, n2 / n3 = the second
+   one iff there are exactly two (None otherwise); a substituent is a neighbour other than the next chain atom that is not a
+   hydrogen and not bound by an order-8 bond *)
+Theorem C12_sg_cumulene_env : forall (fs : Z -> bool) g ps path n0 n1 n2 n3,
+  In (path, (n0, n1, n2, n3)) (sg_cumulenes_of fs g ps) ->
+  In path ps /\
+  exists t1 x1 r t2 y1 r', path = t1 :: x1 :: r /\ rev path = t2 :: y1 :: r' /\
+    end_blocked fs g t1 x1 = false /\ end_blocked fs g t2 y1 = false /\
+    (exists ra, end_subst g t1 x1 = n0 :: ra /\ n2 = second_of (n0 :: ra)) /\
+    (exists rc, end_subst g t2 y1 = n1 :: rc /\ n3 = second_of (n1 :: rc)).
+Proof. exact sg_cum_spec. Qed.
+Print Assumptions C12_sg_cumulene_env.
+
+Theorem C12_substituents_spec : forall g t k x,
+  (In x (end_subst g t k) <-> exists b, In (x, b) (nbrs g t) /\ x <> k /\ is_h g x = false /\ b_ord b <> 8) /\
+  (forall l y, second_of l = Some y <-> exists x', l = [x'; y]) /\
+  (forall l, second_of l = None <-> List.length l <> 2%nat).
+Proof. exact (fun g t k x => conj (end_subst_In g t k x) (conj second_of_Some second_of_None)). Qed.
+Print Assumptions C12_substituents_spec.
+
+(* every path of `cumulenes`: at least two atoms, consecutive atoms joined by a double bond between double-bond-forming
+   elements, and a path with more than two atoms runs from a terminal to a terminal of the double-bond graph (maximal chain) *)
+Theorem C12_cumulenes_chains : forall (fd : Z -> bool) g ps, cumulenes fd g = Ok ps -> forall p, In p ps ->
+  (2 <= List.length p)%nat /\ chain (dbl_adj fd g) p /\
+  (List.length p = 2%nat \/ (In (first_z p) (terminals_of (dbl_adj fd g)) /\ In (last_z p) (terminals_of (dbl_adj fd g)))).
+Proof. exact cumulenes_chains. Qed.
+Print Assumptions C12_cumulenes_chains.
+
+Theorem C12_cumulenes_double_bonds : forall (fd : Z -> bool) g ps, cumulenes fd g = Ok ps ->
+  forall p x y, In p ps -> In [x; y] (pairs p) -> exists b, In (y, b) (nbrs g x) /\ b_ord b = 2.
+Proof. exact cumulenes_double_bonds. Qed.
+Print Assumptions C12_cumulenes_double_bonds.
+
+(* derived registries: entries come from stereogenic paths of the right parity, and every such path has an entry *)
+Theorem C12_allene_registry : forall sc,
+  (forall c e, In (c, e) (sg_allenes_of sc) -> exists p, In (p, e) sc /\ odd_len p = true /\ c = centre_of p) /\
+  (forall p e, In (p, e) sc -> odd_len p = true -> exists e', In (centre_of p, e') (sg_allenes_of sc)) /\
+  (forall c ab, In (c, ab) (allenes_terminals_of sc) ->
+     exists p e, In (p, e) sc /\ odd_len p = true /\ c = centre_of p /\ ab = (first_z p, last_z p)).
+Proof. exact (fun sc => conj (sg_allenes_sound sc) (conj (sg_allenes_complete sc) (allenes_terminals_sound sc))). Qed.
+Print Assumptions C12_allene_registry.
+
+Theorem C12_cis_trans_registry : forall sc,
+  (forall k e, In (k, e) (sg_cis_trans_of sc) -> exists p, In (p, e) sc /\ odd_len p = false /\ k = (first_z p, last_z p)) /\
+  (forall p e, In (p, e) sc -> odd_len p = false -> exists e', In ((first_z p, last_z p), e') (sg_cis_trans_of sc)) /\
+  (forall a b, In (a, b) (ct_counterpart_of sc) ->
+     exists p e, In (p, e) sc /\ odd_len p = false /\ ((a, b) = (first_z p, last_z p) \/ (a, b) = (last_z p, first_z p))) /\
+  (forall x ab, In (x, ab) (ct_terminals_of sc) ->
+     exists p e, In (p, e) sc /\ odd_len p = false /\ ab = (first_z p, last_z p) /\
+                 (x = first_z p \/ x = last_z p \/ x = centre_of p \/ x = centre_lo p)) /\
+  (forall x ij, In (x, ij) (ct_centers_of sc) ->
+     exists p e, In (p, e) sc /\ odd_len p = false /\ ij = (centre_lo p, centre_of p) /\ (x = first_z p \/ x = last_z p)).
+Proof.
+  exact (fun sc => conj (sg_cis_trans_sound sc) (conj (sg_cis_trans_complete sc) (conj (ct_counterpart_sound sc)
+           (conj (ct_terminals_sound sc) (ct_centers_sound sc))))).
+Qed.
+Print Assumptions C12_cis_trans_registry.
+
+(* allene terminals are the ends of a maximal odd chain of double bonds whose middle atom is the centre *)
+Theorem C12_allene_terminals_maximal : forall (fs fd : Z -> bool) g ps c a b,
+  cumulenes fd g = Ok ps -> In (c, (a, b)) (allenes_terminals_of (sg_cumulenes_of fs g ps)) ->
+  exists p, In p ps /\ odd_len p = true /\ (3 <= List.length p)%nat /\ chain (dbl_adj fd g) p /\
+            a = first_z p /\ b = last_z p /\ c = centre_of p /\
+            In a (terminals_of (dbl_adj fd g)) /\ In b (terminals_of (dbl_adj fd g)).
+Proof. exact allene_terminals_maximal. Qed.
+Print Assumptions C12_allene_terminals_maximal.
+
+(* cis/trans terminals are the ends of a maximal even chain -- _partial: EXCEPT two-atom pieces of a chain that `cumulenes`
+   cut at an atom with more than two neighbours; the unrestricted statement is false for the faithful model (next theorem) *)
+Theorem C12_cis_trans_terminals_maximal_partial : forall (fs fd : Z -> bool) g ps a b e,
+  cumulenes fd g = Ok ps -> In ((a, b), e) (sg_cis_trans_of (sg_cumulenes_of fs g ps)) ->
+  exists p, In p ps /\ odd_len p = false /\ chain (dbl_adj fd g) p /\ a = first_z p /\ b = last_z p /\
+            (List.length p = 2%nat \/ (In a (terminals_of (dbl_adj fd g)) /\ In b (terminals_of (dbl_adj fd g)))).
+Proof. exact cis_trans_terminals_maximal_partial. Qed.
+Print Assumptions C12_cis_trans_terminals_maximal_partial.
+
+Theorem C12_cis_trans_terminals_maximal_refuted :
+  exists g ps e, wf_mol g = true /\ cumulenes el_double g = Ok ps /\
+    In ((2, 3), e) (sg_cis_trans_of (sg_cumulenes_of el_single g ps)) /\
+    ~ In 3 (terminals_of (dbl_adj el_double g)).
+Proof. exact cis_trans_terminals_maximal_refuted. Qed.
+Print Assumptions C12_cis_trans_terminals_maximal_refuted.
+
+(* non-vacuity: a tetrasubstituted allene renumbered by n -> 2n + 10, a tetrahedral centre, the cut chain *)
+Theorem C12_registries_example :
+  (forall x y, ex_s x = ex_s y -> x = y) /\ wf_mol ex_allene = true /\ wf_mol ex_th = true /\
+  (exists r, registries_real ex_allene = Ok r /\ r_cumulenes r = [[2; 4; 5]] /\ r_sg_al r = [(4, (1, 6, Some 3, Some 7))] /\
+             r_al_terminals r = [(4, (2, 5))] /\
+             registries_real (rn_mol ex_s ex_allene) = Ok (rn_reg ex_s r) /\
+             r_sg_al (rn_reg ex_s r) = [(18, (12, 22, Some 16, Some 24))]) /\
+  (exists r, registries_real ex_th = Ok r /\ r_tetrahedrons r = [2; 3] /\ r_sg_th r = [(2, [1; 3; 4])]) /\
+  (exists r, registries_real ex_cut = Ok r /\
+             r_sg_ct r = [((2, 3), (1, 4, None, None)); ((3, 4), (2, 5, None, Some 6)); ((6, 4), (7, 3, None, Some 5))]).
+Proof. exact registries_example. Qed.
+Print Assumptions C12_registries_example.
